@@ -10,6 +10,6 @@ python3 tools/srcfacts.py >/dev/null
 (cd coq && make -j16 2>&1 | grep -v "^COQ\|^Closed" | head -30; make -j16 >/dev/null 2>&1) || { echo "COQ BUILD FAILED"; exit 1; }
 (cd driver && ocamlfind ocamlopt -O3 -w -a molt_model.mli molt_model.ml driver.ml -o driver)
 ./harness/target/release/molt_harness run $P $T $S /tmp/$P.cases | cut -c1-300
-./driver/driver $N < /tmp/$P.cases > /tmp/$P.out
+(ulimit -s unlimited; ./driver/driver $N < /tmp/$P.cases > /tmp/$P.out)
 python3 tools/cmp.py /tmp/$P.cases /tmp/$P.out $L
 echo "oracle false on impl obs: $(awk -F'\t' '$2==0 && $3==0' /tmp/$P.out | wc -l); oracle false on model obs: $(awk -F'\t' '$5==0 && $3==0' /tmp/$P.out | wc -l)"
